@@ -30,24 +30,46 @@ static void apply(int ev) {
 /* ------------------------------------------------------------------ c19 on the protocol closure */
 static uint32_t serial0, newblocks; static uint64_t newbytes;
 static void count_new(void *p, size_t size, uint32_t serial, void *arg) { (void)p; (void)arg; if (serial >= serial0) { newblocks++; newbytes += size; } }
+static void retention19(const pev *e, const char *env);
 static void apply19(int ev) {
     const pev *e = &EV[ev];
+    /* environment answers: every request that transmits is also run with its j-th transmit refused (j = 0, 1, 2);
+     * only the retention monitors look at those runs, they add no successor states */
+    if (e->opcode == 0x00 || e->opcode == 0x02 || e->opcode == 0x06 || e->opcode == 0x0B) {
+        vf_snap *entry = vf_snapshot(&M19, sizeof M19);
+        for (unsigned j = 0; j < 3; j++) {
+            vf_restore(entry, &M19, sizeof M19);
+            W.fp.active = 1; W.fp.one_kind = VF_F_SEND; W.fp.one_n = j;
+            serial0 = vf_alloc_serial(); vf_trace_clear();
+            drv_linux(e, 0);
+            uint32_t eff = W.fp.took_effect;
+            memset(&W.fp, 0, sizeof W.fp); W.fp.sticky_kind = -1; W.fp.one_kind = -1;
+            if (!eff) break;
+            char env[48]; snprintf(env, sizeof env, "transmit #%u refused", j);
+            retention19(e, env);
+        }
+        vf_restore(entry, &M19, sizeof M19); free(entry);
+        vf_trace_clear();
+    }
     serial0 = vf_alloc_serial();
     drv_linux(e, 0);
     if (e->opcode == 0xF0 && e->tos == 0xEE) return;
+    retention19(e, NULL);
+    M19.first_seen = 1;
+}
+static void retention19(const pev *e, const char *env) {
     newblocks = 0; newbytes = 0; vf_each_live(count_new, NULL);
     /* what a handler may keep: the interface record (first frame), one observation node (Probe/Train), the icon (QueryLargeTlv) */
     uint32_t allow = (M19.first_seen ? 0u : 1u) + ((e->opcode == 0x03 || e->opcode == 0x04) ? 1u : 0u) + ((e->opcode == 0x0B) ? 1u : 0u);
-    char nm[160]; pev_name(e, nm, sizeof nm);
+    char nm[200]; pev_name(e, nm, 150); if (env) { strcat(nm, " with "); strcat(nm, env); }
     if (newblocks > allow) {
-        char sig[96]; snprintf(sig, sizeof sig, "handler-retains-buffer:op=0x%02x", e->opcode);
+        char sig[96]; snprintf(sig, sizeof sig, "handler-retains-buffer:op=0x%02x%s", e->opcode, env ? ":transmit-refused" : "");
         vf_violation(sig, "%s: %u block(s) (%llu bytes) obtained while handling the frame are still allocated afterwards; at most %u can belong to the bounded retained state", nm, newblocks, (unsigned long long)newbytes, allow);
     }
     if (e->opcode == 0x08 && e->tos == 0 && vf_live_blocks() > 1)
         vf_violation("reset-leaves-allocations", "%s: %u blocks (%llu bytes) remain allocated after a topology Reset; only the per-interface record may", nm, vf_live_blocks(), (unsigned long long)vf_live_bytes());
     if (vf_live_bytes() > 65536 + W.host.icon_size)
         vf_violation("retained-memory-exceeds-bound", "%llu bytes retained between frames (bound 64 KiB + icon)", (unsigned long long)vf_live_bytes());
-    M19.first_seen = 1;
 }
 static void root19(void) { M19.first_seen = 0; }
 
